@@ -225,7 +225,9 @@ def random_world(rng, np_=(2, 4), nq=(2, 4), lo=1, hi=3, falsy=False, rich=True)
     for _ in range(rng.randint(*np_)):
         o = {"a": ival(), "b": ival()}
         if rich:
-            o.update({"s": sval(), "t": tval(), "d": {"k": rng.randint(0, 2) if falsy else ival()},
+            o.update({"s": sval(), "t": tval(), "d": {"k": rng.randint(0, 2) if falsy else ival(),
+                                                         # a present key whose value may be None / falsy (a missing key is something else)
+                                                         "m": rng.choice([None, None, 0, "", "z", 1]) if falsy else rng.choice(["z", "w", 1])},
                       "flag": rng.choice([True, False, 0, 1, "", "z", None, []]) if falsy else rng.choice([True, False])})
         P_.append(o)
     Q_ = []
